@@ -3,126 +3,6 @@ From Refinery Require Import Lib.Base Model.TraceKey.
 From Refinery Require Gen.GenC11.
 From Coq Require Import ZifyN ZifyNat ZifyBool Permutation Sorted.
 
-(* ---------- string equality ---------- *)
-Lemma str_eqb_eq a b : str_eqb a b = true <-> a = b.
-Proof.
-  unfold str_eqb. revert b. induction a as [|x a IH]; destruct b as [|y b]; cbn [list_eqb];
-    try (split; [discriminate|discriminate]); [split; reflexivity|].
-  rewrite andb_true_iff, N.eqb_eq, IH. split; [intros [-> ->]; reflexivity|intros [= -> ->]; auto].
-Qed.
-Lemma str_eqb_refl a : str_eqb a a = true.
-Proof. apply str_eqb_eq. reflexivity. Qed.
-Lemma str_eqb_neq a b : str_eqb a b = false <-> a <> b.
-Proof.
-  split.
-  - intros H E. apply str_eqb_eq in E. congruence.
-  - intros H. destruct (str_eqb a b) eqn:E; [apply str_eqb_eq in E; contradiction|reflexivity].
-Qed.
-
-Lemma mem_str_In x l : mem_str x l = true <-> In x l.
-Proof.
-  induction l as [|y r IH]; cbn [mem_str In]; [split; [discriminate|intros []]|].
-  rewrite orb_true_iff, IH, str_eqb_eq. split; intros [H|H]; auto.
-Qed.
-
-(* ---------- lexicographic order ---------- *)
-Lemma str_leb_total a b : str_leb a b = true \/ str_leb b a = true.
-Proof.
-  revert b. induction a as [|x a IH]; destruct b as [|y b]; cbn [str_leb]; auto.
-  destruct (x <? y)%N eqn:E1; [auto|]. destruct (y <? x)%N eqn:E2; [auto|]. apply IH.
-Qed.
-
-Lemma str_leb_antisym a b : str_leb a b = true -> str_leb b a = true -> a = b.
-Proof.
-  revert b. induction a as [|x a IH]; destruct b as [|y b]; cbn [str_leb]; try discriminate; auto.
-  destruct (x <? y)%N eqn:E1; destruct (y <? x)%N eqn:E2; try discriminate.
-  - apply N.ltb_lt in E1. apply N.ltb_lt in E2. lia.
-  - apply N.ltb_ge in E1. apply N.ltb_ge in E2. intros H1 H2.
-    assert (x = y) by lia. subst. f_equal. apply IH; assumption.
-Qed.
-
-Lemma str_leb_trans a b c : str_leb a b = true -> str_leb b c = true -> str_leb a c = true.
-Proof.
-  revert b c. induction a as [|x a IH]; intros [|y b] [|z c]; cbn [str_leb]; try discriminate; auto.
-  destruct (x <? y)%N eqn:E1; destruct (y <? x)%N eqn:E2;
-  destruct (y <? z)%N eqn:E3; destruct (z <? y)%N eqn:E4;
-  destruct (x <? z)%N eqn:E5; destruct (z <? x)%N eqn:E6; try discriminate; auto;
-  repeat match goal with
-         | H : (_ <? _)%N = true |- _ => apply N.ltb_lt in H
-         | H : (_ <? _)%N = false |- _ => apply N.ltb_ge in H
-         end; try lia.
-  apply IH.
-Qed.
-
-(* ---------- insertion sort ---------- *)
-Definition sle (a b : str) : Prop := str_leb a b = true.
-
-Lemma sinsert_perm x l : Permutation (sinsert x l) (x :: l).
-Proof.
-  induction l as [|y r IH]; cbn [sinsert]; [apply Permutation_refl|].
-  destruct (str_leb x y); [apply Permutation_refl|].
-  eapply Permutation_trans; [apply perm_skip; exact IH|apply perm_swap].
-Qed.
-
-Lemma ssort_perm l : Permutation (ssort l) l.
-Proof.
-  induction l as [|x r IH]; cbn [ssort]; [constructor|].
-  eapply Permutation_trans; [apply sinsert_perm|apply perm_skip; exact IH].
-Qed.
-
-Lemma sinsert_sorted x l : StronglySorted sle l -> StronglySorted sle (sinsert x l).
-Proof.
-  induction l as [|y r IH]; cbn [sinsert]; intros H.
-  - constructor; constructor.
-  - inversion H as [|? ? Hr Hall]; subst.
-    destruct (str_leb x y) eqn:E.
-    + constructor; [exact H|]. constructor; [exact E|].
-      eapply Forall_impl; [|exact Hall]. intros z Hz. eapply str_leb_trans; [exact E|exact Hz].
-    + constructor; [apply IH; exact Hr|].
-      assert (sle y x) as Hyx by (destruct (str_leb_total x y) as [T|T]; [congruence|exact T]).
-      eapply Permutation_Forall; [apply Permutation_sym; apply sinsert_perm|].
-      constructor; assumption.
-Qed.
-
-Lemma ssort_sorted l : StronglySorted sle (ssort l).
-Proof. induction l as [|x r IH]; cbn [ssort]; [constructor|apply sinsert_sorted; exact IH]. Qed.
-
-Lemma sorted_perm_eq l1 : forall l2,
-  StronglySorted sle l1 -> StronglySorted sle l2 -> Permutation l1 l2 -> l1 = l2.
-Proof.
-  induction l1 as [|a l1 IH]; intros l2 S1 S2 P.
-  - apply Permutation_nil in P. subst. reflexivity.
-  - destruct l2 as [|b l2]; [apply Permutation_sym, Permutation_nil in P; discriminate|].
-    inversion S1 as [|? ? S1' A1]; inversion S2 as [|? ? S2' A2]; subst.
-    assert (a = b) as ->.
-    { assert (In a (b :: l2)) as Ha by (eapply Permutation_in; [exact P|left; reflexivity]).
-      assert (In b (a :: l1)) as Hb by (eapply Permutation_in; [apply Permutation_sym; exact P|left; reflexivity]).
-      destruct Ha as [->|Ha]; [reflexivity|]. destruct Hb as [->|Hb]; [reflexivity|].
-      rewrite Forall_forall in A1, A2.
-      apply str_leb_antisym; [apply A1; exact Hb|apply A2; exact Ha]. }
-    f_equal. apply IH; [assumption|assumption|]. eapply Permutation_cons_inv; exact P.
-Qed.
-
-Lemma ssort_perm_eq l1 l2 : Permutation l1 l2 -> ssort l1 = ssort l2.
-Proof.
-  intros P. apply sorted_perm_eq; [apply ssort_sorted|apply ssort_sorted|].
-  eapply Permutation_trans; [apply ssort_perm|].
-  eapply Permutation_trans; [exact P|apply Permutation_sym, ssort_perm].
-Qed.
-
-Lemma ssort_In x l : In x (ssort l) <-> In x l.
-Proof.
-  split; intros H; [eapply Permutation_in; [apply ssort_perm|exact H]|
-                    eapply Permutation_in; [apply Permutation_sym, ssort_perm|exact H]].
-Qed.
-
-Lemma ssort_nil l : ssort l = [] <-> l = [].
-Proof.
-  split; intros H.
-  - pose proof (ssort_perm l) as P. rewrite H in P. apply Permutation_nil in P. exact P.
-  - subst. reflexivity.
-Qed.
-
 (* ---------- uncapped distinct collection ---------- *)
 Lemma scan_u_In xs : forall seen y, In y (scan_u xs seen) <-> In y seen \/ In y xs.
 Proof.
@@ -474,7 +354,8 @@ Lemma gen_c11_ok :
   GenC11.cap_breaks_outer = true /\ GenC11.cap_counts_before_store = true /\
   GenC11.cap_is_max_key_length = true /\
   GenC11.add_switch = [["string"]; ["int"]; ["int64"]; ["float64"]; ["bool"]; ["nil"]; ["default"]]%string /\
-  GenC11.root_uses_percent_v = true /\ GenC11.len_is_span_count = true /\
+  GenC11.root_uses_same_rendering = true /\ GenC11.float_whole_as_int = true /\
+  GenC11.add_uses_append_value = true /\ GenC11.len_is_span_count = true /\
   GenC11.fields_sorted = true /\ GenC11.values_sorted = true /\
   GenC11.shape_dynamic = true /\ GenC11.shape_emadynamic = true /\ GenC11.shape_emathroughput = true /\
   GenC11.shape_windowedthroughput = true /\ GenC11.shape_totalthroughput = true.
